@@ -82,6 +82,17 @@ def runHistory (pk : PublicKey) (sk : PrivateKey) (nu0 : Int) (time0 : Int) (ste
           else evs0
         h := { h with updates := (uid, { sacc := sacc, events := evs }) :: h.updates.filter (·.1 ≠ uid) }
         out := out ++ ["update-ok"]
+    | "redecode" =>
+      -- the next message read into the existing update object (values: the object is replaced)
+      let uid ← getStr st "u"
+      let frm ← getNat st "from"
+      let to ← getNat st "to"
+      match h.accs[to]? with
+      | none => throw "bad to"
+      | some sacc =>
+        let evs := (h.events.drop frm).take (to + 1 - frm)
+        h := { h with updates := (uid, { sacc := sacc, events := evs }) :: h.updates.filter (·.1 ≠ uid) }
+        out := out ++ ["redecode-ok"]
     | "apply" =>
       let wid ← getStr st "w"
       let uid ← getStr st "u"
